@@ -19,7 +19,8 @@ MANIFEST = dict(
     technique='abstract interpretation of the BoC parser on the complete encoder-option space of an independent serialized_boc encoder; exhaustive truncations; reference-index and CRC corruption classes',
     text='Decides that for every admissible encoder choice (magic, widths, index, cache bits, CRC, stored hashes, cell order, several roots) the parser '
          'returns exactly the encoded roots, and that every truncation/extension, every corrupted byte of CRC-protected input (position-exhaustive, '
-         'one flip per byte; all bits in thorough tier) and every dangling/backward/self reference raises. DAG fixtures are finite.',
+         'one flip per byte; all bits in thorough tier) and every dangling/backward/self reference raises. DAG fixtures are finite.'
+         ' Reference faults are refused in cells that no root reaches as well.',
     note='trusted: interpreter, sa/bocspec.py encoder. CRC-32C detecting every single-bit flip is a property of the code (C18 proves the CRC is the standard one); here it is exercised per position.',
     design_ref='DESIGN.md section 4 C05')
 
